@@ -41,6 +41,10 @@ class Verifier(Stmts):
         self.key_projection = {}
         self.ctor_param_fields = {}
         self.vacuity = []
+        self.singletons = {}        # id(real module-level object) -> (object, StateShape): modelled as a heap object
+        self.singleton_refs = {}
+        self.ghost_shape = None     # StateShape of the ghost-state object `GS`
+        self.ghost_ref = None
         self._sym_cache = {}
         self._ghost_defs = set()
         self.spec_globals = {'ZERO32': bytes(32)}
@@ -185,6 +189,10 @@ class Verifier(Stmts):
         st.stack.append(Frame({}, None, func.__globals__, qualname))
         names = [a.arg for a in node.args.args]
         vals = {}
+        self.singleton_refs = {}
+        for oid, (obj, shape) in self.singletons.items():
+            self.singleton_refs[oid] = self.make_symbolic(type(obj).__name__, shape, st)
+        self.ghost_ref = self.make_symbolic('GS', self.ghost_shape, st) if self.ghost_shape is not None else None
         for n in names:
             ty = self.param_type(con, func, node, n)
             vals[n] = self.make_symbolic(n, ty, st)
@@ -409,9 +417,10 @@ class Verifier(Stmts):
                 # inside a specification a summarised call is just the summary term: the callee's post-conditions are
                 # brought in explicitly where a lemma needs them (use_contract), not silently at every mention
                 for text in con.ensures_ + con.on_any_:
-                    normal.assume(self.spec_bool(text, normal, nenv))
+                    # without a normal-return predicate the post-conditions themselves are what tells outcomes apart
+                    normal.assume(self.spec_bool(text, normal, nenv), decision=not con.predicate_)
                 if con.predicate_ and not st.spec:
-                    normal.assume(self.predicate_term(con, vals, normal))
+                    normal.assume(self.predicate_term(con, vals, normal), decision=True)
             if isinstance(result, V) and result.ty.kind != 'any' and not st.spec:
                 self.assume_valid(result, normal)
             normal.old = st.old
@@ -423,14 +432,16 @@ class Verifier(Stmts):
                     for ecls, when in exc_classes:
                         es = cst.fork()
                         es.old = pre
+                        if con.modifies_:
+                            self.havoc_paths(con, es, env)      # the callee may have written before it raised
                         eenv = dict(env)
                         eenv['result'] = None
                         if when:
-                            es.assume(self.spec_bool(when, es, eenv))
+                            es.assume(self.spec_bool(when, es, eenv), decision=True)
                         for text in con.raises_only_if_ + con.on_raise_ + con.on_any_:
-                            es.assume(self.spec_bool(text, es, eenv))
+                            es.assume(self.spec_bool(text, es, eenv), decision=not con.predicate_)
                         if con.predicate_:
-                            es.assume(z3.Not(self.predicate_term(con, vals, es)))
+                            es.assume(z3.Not(self.predicate_term(con, vals, es)), decision=True)
                         es.old = st.old
                         if self.feasible(es):
                             es.trace.append("%s raises %s" % (qn.split('.')[-1], ecls.__name__))
@@ -729,6 +740,20 @@ class Verifier(Stmts):
         elif r == z3.sat:
             ob.status, ob.backend, ob.model = 'refuted', 'z3', s.model()
         else:
+            # 1a. hypotheses that share an uninterpreted function with the goal, instantiated on the goal's terms: a small
+            #     quantifier-free problem (the typical loop-invariant / element-wise obligation needs nothing else)
+            try:
+                from .inst import instantiate
+                for k, lv in enumerate(self.relevance_levels(ob)[:2]):
+                    fh, fcore, fn_, _fl = instantiate(lv, ob.goal, rounds=2, focused=True, extra_terms=ob.terms,
+                                                      max_instances=600)
+                    rf, _sf = self._try(fh, fcore, min(3000, self.timeout_ms))
+                    if rf == z3.unsat:
+                        ob.status, ob.backend = 'discharged', 'z3/relevant%d+focused(%d)' % (k, fn_)
+                        break
+            except z3.Z3Exception as e:
+                ob.detail += 'relevant+focused instantiation failed: %s; ' % e
+        if ob.status is None and r != z3.sat:
             # 1b. focused instantiation: only the terms of the goal (and those a lemma script names), two rounds
             try:
                 from .inst import instantiate
